@@ -77,6 +77,12 @@ def gen_single(rng, profile="general"):
         case["eps"] = 0.0 if rng.random() < 0.8 else case["eps"]
     if case["eps"] > 0 and rng.random() < 0.5:
         case["data"]["flavor"] = "plain"
+    if rng.random() < 0.15:
+        # real multi-process pool; the first rounds' tasks are delayed so that they complete in reverse submission order
+        K_ = case["K"]
+        case["mp"] = True
+        case["nproc"] = int(rng.integers(2, K_ + 2))
+        case["task_plan"] = {str(r_ * K_ + k_): {"delay": 0.025 * (K_ - 1 - k_)} for r_ in range(2) for k_ in range(K_) if k_ < K_ - 1}
     return case
 
 
